@@ -8,6 +8,9 @@ structure D where
   s : St := { sub := fun f => f < 2 }
   modePark : Option (Nat × Nat × Bool) := none   -- worker, file, is Mode (not ModTime)
   chmodBlk : Option (Nat × Nat × Nat) := none    -- worker, file, mode
+  /-- a SetMode whose upward propagation is paused at `updateChildEntry:localDone`: worker, the directory node it
+  carries, and whether the root directory's local update is already done (else only /d's) -/
+  chFlight : Option (Nat × View × Bool) := none
 
 def nW : Nat := 4
 
@@ -21,14 +24,34 @@ def parseOct (t : String) : Option Nat :=
   t.foldl (fun acc c => acc.bind fun a => if c.toNat ≥ 48 && c.toNat < 56 then some (a * 8 + (c.toNat - 48)) else none) (some 0)
 
 def busy (d : D) (w : Nat) : Bool :=
-  (d.s.ws w).stage.isSome || (d.modePark.map (·.1)) == some w || (d.chmodBlk.map (·.1)) == some w
+  (d.s.ws w).stage.isSome || (d.modePark.map (·.1)) == some w || (d.chmodBlk.map (·.1)) == some w ||
+  (d.chFlight.map (·.1)) == some w
+
+/-- continue a paused SetMode of worker `w`: next local update (pausing again if `park`), then publish -/
+def resumeChmod (d : D) (w : Nat) (snap : View) (atRoot : Bool) (park : Bool) : D × List (Nat × String) :=
+  if atRoot then ({ d with s := { d.s with pub := some snap }, chFlight := none }, [(w, "ok")])
+  else
+    let (s1, snap') := localRootDir d.s snap
+    if park then ({ d with s := s1, chFlight := some (w, snap', true) }, [])
+    else ({ d with s := { s1 with pub := some snap' }, chFlight := none }, [(w, "ok")])
+
+/-- start SetMode: node set, first local update; pauses there if `park` -/
+def startChmod (d : D) (w f m : Nat) (park : Bool) : D × List (Nat × String) :=
+  if !park then ({ d with s := chmod d.s f m }, [(w, "ok")]) else
+  let s := { d.s with fmode := upd d.s.fmode f m }
+  if s.sub f then
+    let (s1, snap) := localSub s f (s.fnode f)
+    ({ d with s := s1, chFlight := some (w, snap, false) }, [])
+  else
+    let (s1, snap) := localRootFile s f (s.fnode f)
+    ({ d with s := s1, chFlight := some (w, snap, true) }, [])
 
 def status (d : D) (done : List (Nat × String)) : String :=
   " ".intercalate <| (List.range nW).map fun w =>
     match done.find? (·.1 == w) with
     | some (_, r) => s!"w{w}=done:{r}"
     | none =>
-      if (d.s.ws w).stage.isSome || (d.modePark.map (·.1)) == some w then s!"w{w}=parked"
+      if (d.s.ws w).stage.isSome || (d.modePark.map (·.1)) == some w || (d.chFlight.map (·.1)) == some w then s!"w{w}=parked"
       else if (d.chmodBlk.map (·.1)) == some w then s!"w{w}=blocked"
       else s!"w{w}=idle"
 
@@ -55,6 +78,10 @@ def doOp (d : D) (ts : List String) : Option (D × String × List (Nat × String
       some ({ d with s := s }, "started", if (s.ws w).stage.isNone then [(w, "ok")] else [])
     else if op == "resume" then do
       let w := (← w.toNat?) % nW
+      if let some (cw, snap, atRoot) := d.chFlight then
+        if cw == w then
+          let (d', done) := resumeChmod d w snap atRoot (p == "l")
+          return (d', "started", done)
       match d.modePark with
       | some (mw, mf, isMode) =>
         if mw != w then (if (d.s.ws w).stage.isSome then
@@ -85,12 +112,31 @@ def doOp (d : D) (ts : List String) : Option (D × String × List (Nat × String
   | ["ls", w] => do
     let w := (← w.toNat?) % nW
     if busy d w || d.modePark.isSome then refused
-    else some (d, "started", [(w, "c:4,d:0;a:4,b:4")])
+    else some ({ d with s := listRoot d.s }, "started", [(w, "c:4,d:0;a:4,b:4")])
   | ["pubcat", f] => do
     let f ← f.toNat?
     match d.s.pub with
     | none => some (d, "none", [])
     | some v => some (d, tok (v f), [])
+  | ["chmod", w, f, m, pk] => do
+    let w := (← w.toNat?) % nW
+    let f ← f.toNat?
+    let m ← parseOct m
+    if busy d w || anyFd d.s nW || d.chmodBlk.isSome || d.chFlight.isSome then refused else
+    match d.modePark with
+    | some (_, mf, _) => if mf == f then some ({ d with chmodBlk := some (w, f, m) }, "started", [])
+                         else some ({ d with s := chmod d.s f m }, "started", [(w, "ok")])
+    | none =>
+      let (d', done) := startChmod d w f m (pk == "l")
+      some (d', "started", done)
+  | ["lschmod", w, f, m] => do
+    let w := (← w.toNat?) % nW
+    let f ← f.toNat?
+    let m ← parseOct m
+    if busy d w || d.modePark.isSome || anyFd d.s nW || d.chmodBlk.isSome || d.chFlight.isSome then refused else
+    -- listing the root directory calls /d's GetNode (link sync of /d) before the SetMode can get the directory lock
+    let s0 := if f < 2 then d.s else listRoot d.s
+    some ({ d with s := chmod s0 f m }, "started", [(w, (if f < 2 then "a:4,b:4" else "c:4,d:0") ++ "/ok")])
   | [op, w, f, p] =>
     if op == "mode" || op == "mtime" then do
       let w := (← w.toNat?) % nW
@@ -103,7 +149,7 @@ def doOp (d : D) (ts : List String) : Option (D × String × List (Nat × String
       let w := (← w.toNat?) % nW
       let f ← f.toNat?
       let m ← parseOct p
-      if busy d w || anyFd d.s nW || d.chmodBlk.isSome then refused else
+      if busy d w || anyFd d.s nW || d.chmodBlk.isSome || d.chFlight.isSome then refused else
       match d.modePark with
       | some (_, mf, _) => if mf == f then some ({ d with chmodBlk := some (w, f, m) }, "started", [])
                            else some ({ d with s := chmod d.s f m }, "started", [(w, "ok")])
